@@ -152,7 +152,8 @@ def check_arm(run, pkg, rank, linear, arm):
     acc = [e for e in stores(it) if any(x == COND for x in walk(e.data["value"]))]
     whole = [e for e in it.events if e.kind == "assign" and e.data["name"] and any(x == COND for x in walk(e.data["value"])) and product_of(e.data["value"])]
     loc = fi.loc()
-    if len(acc) + len(whole) != 1 or (not acc and product_of(whole[0].data["value"]) is None) or (not acc and frame_of(strip_conj(product_of(whole[0].data["value"])[0])[0])[0] is None):
+    if not acc:
+        # no accumulation loop: the arm is a whole-array expression, decided exactly on symbolic arrays
         if symbolic_arm(run, it, rank, linear, arm):
             return
     if len(acc) + len(whole) != 1:
